@@ -2252,3 +2252,52 @@ func sharedSortedSearch(c *an.Ctx, rule string, prefixes ...string) (examined in
 	}
 	return examined
 }
+
+// sharedParamsUsed is the forwarding rule for thin wrappers: every named
+// parameter of every function or method of the given packages is used by its
+// body (a wrapper that drops a parameter -- an expiration, a key, a context
+// value -- silently changes the behaviour of the wrapped component).  Methods
+// of the types listed in exempt (no-op implementations) are skipped.  It
+// returns the number of parameters examined.
+func sharedParamsUsed(c *an.Ctx, rule string, exempt map[string]string, prefixes ...string) (examined int) {
+	for _, fn := range c.AllFns {
+		if fn.Blocks == nil || (fn.Synthetic != "" && fn.Origin() == nil) || c.IsTestFile(fn.Pos()) || fn.Parent() != nil {
+			continue
+		}
+		k := an.FnKey(fn)
+		if o := fn.Origin(); o != nil {
+			// an instantiation of a generic function: reported under the generic's name
+			k = an.FnKey(o)
+		}
+		in := false
+		for _, p := range prefixes {
+			if strings.HasPrefix(k, p) {
+				in = true
+			}
+		}
+		if !in {
+			continue
+		}
+		skip := false
+		for e := range exempt {
+			if strings.Contains(k, e) {
+				skip = true
+			}
+		}
+		if skip {
+			continue
+		}
+		c.Analysed(k)
+		for i, pa := range fn.Params {
+			if pa.Name() == "_" || pa.Name() == "" || (i == 0 && fn.Signature.Recv() != nil) {
+				continue
+			}
+			examined++
+			used := pa.Referrers() != nil && len(*pa.Referrers()) > 0
+			if !used {
+				c.Bad(rule, k+" uses parameter "+pa.Name(), fn.Pos(), "parameter %s is ignored by the body: the caller's value never reaches the wrapped component", pa.Name())
+			}
+		}
+	}
+	return examined
+}
